@@ -16,7 +16,8 @@ META = {
             "error (with or without a destination) is refused; no result shape crashes; over histories in which the "
             "lookup's answers and the registry change between connections every dial is routed by the answer and the "
             "registry at that dial (what NewServer stores in s.lookup and who calls it is extracted; a memoising server "
-            "is refuted); every return of hostConn "
+            "is refuted); a destination name not registered with exactly these bytes is never served by a "
+            "variant (registry lookup = one map index, extracted; a folding lookup refuted); every return of hostConn "
             "before the join closes the front connection and bytes flow only after a successful dial of the selected "
             "destination; (concurrency) for every sequence of whole "
             "operations of any number of goroutines on the session-id counter, the side-dial mail office and the "
@@ -214,6 +215,10 @@ def oracle_hist_pass(h, count_calls):
                         "dialled: %r - history [%s]" % (sni, lookup_shape(cur), bytes.fromhex(arg), hist))
             continue
         name = cur.get("name", "")
+        if d == "endpoint" and arg != name and bytes.fromhex(arg).lower() == bytes.fromhex(name).lower():
+            return ("hist:name-variant-dialled", "at this dial the lookup's answer for %s is endpoint %r, which is not "
+                    "connected; endpoint %r (another name, differing in letter case) was dialled - history [%s]"
+                    % (sni, bytes.fromhex(name), bytes.fromhex(arg), hist))
         if d == "endpoint" and arg != name:
             return ("hist:routed-by-earlier-lookup", "at this dial the lookup's answer for %s is endpoint %r, yet endpoint %r "
                     "was dialled - history [%s]" % (sni, bytes.fromhex(name), bytes.fromhex(arg), hist))
@@ -294,6 +299,11 @@ def oracle_route(r):
             return ("no-destination-routed", "the lookup has no destination for the name %r (lookup result: %s) but the "
                     "connection was routed: %s" % (sni, shape, d))
         return None
+    if d == "endpoint" and r["decision_arg"] != entry.get("name", "") and \
+            bytes.fromhex(r["decision_arg"]).lower() == bytes.fromhex(entry.get("name", "")).lower():
+        return ("name-variant-dialled", "name %r maps to %r, under which no endpoint is connected, but endpoint %r - a name "
+                "differing only in letter case - was dialled" % (
+                    sni, bytes.fromhex(entry.get("name", "")), bytes.fromhex(r["decision_arg"])))
     if d == "endpoint":
         if r["decision_arg"] != entry.get("name", "") or r["decision_arg"] not in r["endpoints"] \
                 or entry.get("home") or entry.get("forward"):
